@@ -20,6 +20,13 @@ builds, steps, resets and closes those environments FIRST and only then runs the
 in one interpreter (class attributes, module-level objects, registries, the global generators) has a non-default value when the case
 starts. The case's lines must equal those of a worker that started fresh.
 
+FORK SERVERS (`Servers`, `--server`): importing the code under test costs 4 s per interpreter; instead of one interpreter per
+(case, variant) the parent starts ONE server per PYTHONHASHSEED value, which imports the code once and forks a child per job. A
+child has exactly the state an interpreter has right after the imports (python's `random` is re-seeded in a forked child by
+CPython; numpy's global generator, seeded from OS entropy at import, is shared by the children of ONE server and differs between
+servers - the comparison is always across servers), gets a session directory of its own, and runs `run_spec`. The stored corpus
+witnesses and `--replay` still start one interpreter per variant.
+
 The worker half (`python -m harness.rigs.xproc`) imports primaite; the parent half does not.
 """
 from __future__ import annotations
@@ -149,18 +156,23 @@ def _pin(pin: Dict):
 
 def worker_main() -> int:
     spec = json.loads(sys.stdin.read())
+    out = sys.__stdout__
+    sys.stdout = open(os.devnull, "w")  # PrettyTable prints etc. must not mix with the protocol
+    return run_spec(spec, out)
+
+
+def run_spec(spec: Dict, out) -> int:
+    """Play one case (warm-ups, construction, operations) and write the canonical lines to `out`."""
     import logging
     import warnings
     warnings.filterwarnings("ignore")
-    if not spec.get("loud"):
-        logging.disable(logging.WARNING)
-    out = sys.__stdout__
-    sys.stdout = open(os.devnull, "w")  # PrettyTable prints etc. must not mix with the protocol
+    logging.disable(logging.NOTSET if spec.get("loud") else logging.WARNING)
     canon = Canon()
 
     def emit(obj):
         out.write(canon.text(json.dumps(obj, sort_keys=False, default=str)) + "\n")
 
+    warm_failed: List[str] = []
     try:
         _pin(spec.get("pin") or {})
         from primaite.session.environment import PrimaiteGymEnv
@@ -186,8 +198,8 @@ def worker_main() -> int:
                     wenv.step(0)
                 wenv.close()
                 del wenv
-            except Exception as e:  # a warm-up that cannot run is reported to the parent on stderr (counted; not part of the compared stream)
-                sys.stderr.write(f"WARMUP-FAILED {wi} {type(e).__name__}: {str(e)[:120]}\n")
+            except Exception as e:  # a warm-up that cannot run is reported to the parent (counted; not part of the compared stream)
+                warm_failed.append(f"WARMUP-FAILED {wi} {type(e).__name__}: {str(e)[:120]}")
         canon.ids.clear()
         env = PrimaiteGymEnv(env_config=cfg)
 
@@ -217,8 +229,131 @@ def worker_main() -> int:
         import traceback
         tb = traceback.extract_tb(e.__traceback__)[-1]
         emit({"raised": type(e).__name__, "where": f"{tb.filename.split('primaite/')[-1]}:{tb.name}", "msg": str(e)[:200]})
+    out.write(META_PREFIX + json.dumps({"warm_failed": warm_failed}) + "\n")  # trailer for the parent, stripped before comparison
     out.flush()
     return 0
+
+
+# ------------------------------------------------------------------------------------------------ fork server
+META_PREFIX = "#meta "
+
+
+def server_main() -> int:
+    """`python -m harness.rigs.xproc --server`: import the code under test ONCE, then fork one child per job (a JSON line
+    {"spec": …, "out": path} on stdin). A child starts from exactly the state an interpreter has right after the imports (plus a
+    session directory of its own), plays the job with `run_spec`, writes the lines to `out`.tmp and renames it to `out`."""
+    import signal
+    sys.stdout = open(os.devnull, "w")
+    import warnings
+    warnings.filterwarnings("ignore")
+    import logging
+    logging.disable(logging.WARNING)
+    import yaml  # noqa: F401
+    import primaite.session.environment  # noqa: F401  (the 4 s the server exists to pay once)
+    signal.signal(signal.SIGCHLD, signal.SIG_IGN)  # children are reaped automatically
+    sys.__stdout__.write("ready\n")
+    sys.__stdout__.flush()
+    for line in sys.stdin:
+        line = line.strip()
+        if not line:
+            continue
+        job = json.loads(line)
+        pid = os.fork()
+        if pid:
+            continue
+        # ---- child
+        code = 0
+        try:
+            signal.signal(signal.SIGCHLD, signal.SIG_DFL)
+            from primaite.simulator import SIM_OUTPUT
+            SIM_OUTPUT.time_str = f"{SIM_OUTPUT.time_str}-{os.getpid()}"  # a session directory of its own (file output only)
+            tmp = job["out"] + ".tmp"
+            with open(tmp, "w") as f:
+                run_spec(job["spec"], f)
+            os.replace(tmp, job["out"])
+        except BaseException as e:  # pragma: no cover
+            try:
+                with open(job["out"] + ".tmp", "a") as f:
+                    f.write(json.dumps({"raised": "worker-crashed", "msg": f"{type(e).__name__}: {e}"[:200]}) + "\n")
+                os.replace(job["out"] + ".tmp", job["out"])
+            except Exception:
+                pass
+            code = 1
+        os._exit(code)
+    return 0
+
+
+class Servers:
+    """One fork server per PYTHONHASHSEED value; jobs are played by forked children (fresh post-import state each)."""
+
+    def __init__(self, repo: Path, verif: Path):
+        self.repo, self.verif = repo, verif
+        self.root = Path(tempfile.mkdtemp(prefix="c03-servers-"))
+        self.procs: Dict[int, subprocess.Popen] = {}
+        self.n = 0
+        import threading
+        self.lock = threading.Lock()
+
+    def _server(self, hashseed: int) -> subprocess.Popen:
+        with self.lock:
+            if hashseed not in self.procs:
+                home = self.root / f"home-{hashseed}"
+                home.mkdir()
+                env = {"PATH": os.environ.get("PATH", ""), "HOME": str(home), "PYTHONHASHSEED": str(hashseed),
+                       "PYTHONPATH": str(self.repo / "src") + os.pathsep + str(self.verif), "PRIMAITE_REPO": str(self.repo), "PRIMAITE_VERIF": "1",
+                       "TMPDIR": str(home), "XDG_CONFIG_HOME": str(home / ".config"), "XDG_DATA_HOME": str(home / ".local"),
+                       "XDG_STATE_HOME": str(home / ".state"), "XDG_CACHE_HOME": str(home / ".cache")}
+                p = subprocess.Popen([sys.executable, "-m", "harness.rigs.xproc", "--server"], cwd=str(self.verif), env=env, stdin=subprocess.PIPE,
+                                     stdout=subprocess.PIPE, stderr=subprocess.DEVNULL, text=True)
+                if p.stdout.readline().strip() != "ready":
+                    raise RuntimeError(f"fork server for PYTHONHASHSEED={hashseed} did not start")
+                self.procs[hashseed] = p
+            return self.procs[hashseed]
+
+    def start(self, hashseeds) -> None:
+        """start the servers of these seeds concurrently (each pays the import once)"""
+        import concurrent.futures as cf
+        with cf.ThreadPoolExecutor(max(1, len(list(hashseeds)))) as ex:
+            list(ex.map(self._server, list(hashseeds)))
+
+    def submit(self, hashseed: int, spec: Dict) -> Path:
+        p = self._server(hashseed)
+        with self.lock:
+            self.n += 1
+            out = self.root / f"job-{self.n}.out"
+            p.stdin.write(json.dumps({"spec": spec, "out": str(out)}) + "\n")
+            p.stdin.flush()
+        return out
+
+    @staticmethod
+    def wait(out: Path, timeout: int = 900) -> List[str]:
+        import time
+        t0 = time.time()
+        while not out.exists():
+            if time.time() - t0 > timeout:
+                return []
+            time.sleep(0.05)
+        return out.read_text().splitlines()
+
+    def close(self) -> None:
+        for p in self.procs.values():
+            try:
+                p.stdin.close()
+                p.terminate()
+            except Exception:
+                pass
+        shutil.rmtree(self.root, ignore_errors=True)
+
+
+def _split_meta(lines: List[str]) -> Tuple[List[str], str]:
+    meta = [l for l in lines if l.startswith(META_PREFIX)]
+    err = ""
+    for m in meta:
+        try:
+            err += "\n".join(json.loads(m[len(META_PREFIX):]).get("warm_failed", []))
+        except Exception:
+            pass
+    return [l for l in lines if not l.startswith(META_PREFIX)], err
 
 
 def _order_ok(game) -> bool:
@@ -271,11 +406,24 @@ def _probe(env, what: Dict) -> Any:
 
 
 # ------------------------------------------------------------------------------------------------ parent
-def run_workers(spec: Dict, variants: List[Dict], repo: Path, verif: Path, timeout: int = 900) -> List[Tuple[Dict, List[str], str]]:
-    """One fresh interpreter per variant, in parallel. Returns [(variant, lines, stderr-tail)]."""
+def run_workers(spec: Dict, variants: List[Dict], repo: Path, verif: Path, timeout: int = 900, servers: Optional["Servers"] = None
+                ) -> List[Tuple[Dict, List[str], str]]:
+    """One fresh interpreter per variant, in parallel (or, with `servers`, one forked child of the fork server of the variant's
+    PYTHONHASHSEED). Returns [(variant, lines, stderr-tail)]."""
     import yaml
     procs = []
     cfg_yaml = spec.get("cfg_yaml") or yaml.safe_dump(spec["cfg"], sort_keys=False)
+    if servers is not None:
+        outs = []
+        for v in variants:
+            s = {k: x for k, x in spec.items() if k != "cfg"}
+            s.update(cfg_yaml=cfg_yaml, loud=bool(v.get("loud")), pin=v.get("pin"), warm_idx=list(v.get("warm") or []))
+            outs.append((v, servers.submit(int(v.get("hashseed", 0)), s)))
+        res = []
+        for v, out in outs:
+            lines, err = _split_meta(Servers.wait(out, timeout))
+            res.append((v, lines, err if lines else "no output from forked worker"))
+        return res
     tmp_root = Path(tempfile.mkdtemp(prefix="c03-xproc-"))
     try:
         for k, v in enumerate(variants):
@@ -301,7 +449,8 @@ def run_workers(spec: Dict, variants: List[Dict], repo: Path, verif: Path, timeo
             except subprocess.TimeoutExpired:
                 p.kill()
                 so, se = "", "timeout"
-            res.append((v, so.splitlines(), se[-1500:]))
+            lines, err = _split_meta(so.splitlines())
+            res.append((v, lines, (se[-1500:] + "\n" + err)))
         return res
     finally:
         shutil.rmtree(tmp_root, ignore_errors=True)
@@ -422,4 +571,4 @@ def describe_diff(a: str, b: str) -> Dict:
 
 
 if __name__ == "__main__":
-    sys.exit(worker_main())
+    sys.exit(server_main() if "--server" in sys.argv else worker_main())
